@@ -140,6 +140,15 @@ Theorem requests_exactly_once_in_order_buffered_read_until :
 Proof. exact (@bru_requests_in_order). Qed.
 Print Assumptions requests_exactly_once_in_order_buffered_read_until.
 
+Theorem requests_exactly_once_in_order_buffered_fixed_size :
+  forall (P : Type) (size : nat) (dec : decoder P) (sizehint : nat), 1 <= size ->
+  forall (oc : nat) (acts0 : list hact) (o : speer),
+    let f := client_coroutine (buf_machine (bfx_framer size dec) sizehint) oc acts0 (bcinit (bfx_framer size dec)) o in
+    (exists n, got_log (ulog (f_user f)) = firstn n (fst (fx_events size dec (sstream_of o))))
+    /\ (f_eof f = true -> got_log (ulog (f_user f)) = fst (fx_events size dec (sstream_of o))).
+Proof. exact (@bfx_requests_in_order). Qed.
+Print Assumptions requests_exactly_once_in_order_buffered_fixed_size.
+
 (* non-vacuity for the separator instances: LF framing, limit 8, ascii codec, buffer-filling consumer, max_recv_size 2;
    "a\n\200" at 0, "\nb\n" at 3, EOF at 5; one generator per event *)
 Example c15_buffered_example :
